@@ -87,6 +87,10 @@ class Env:
         tmo = -1 if timeout is None else max(0, int(round(timeout * US)))
         self.log(t="wait", timeout=tmo, ready=ready, grace=self.grace)
         if ready or tmo == 0:
+            if not ready and timeout and timeout > 0:
+                # a sleep below the trace's resolution (a last-bit difference between `due - now` and `now + timeout` in the loop's own
+                # float arithmetic): no observable wait, but the clock moves on as a real one would; otherwise the loop spins for ever
+                self.now += max(timeout, 1e-9)
             return ready
         target = None if timeout is None else self.now + timeout
         while True:
@@ -378,7 +382,7 @@ class TrioAdapter(Adapter):
                 return getattr(trio, k)
 
             def run(self, fn, *a, instruments=(), **kw):
-                adapter.t0 = adapter.clock.current_time()
+                adapter.t0 = adapter.clock.current_time() - env.now      # env.now > 0: the program was busy before run()
                 return trio.run(fn, *a, clock=adapter.clock, instruments=[*instruments, WaitInstrument()], **kw)
 
         old = m.trio
